@@ -154,12 +154,12 @@ func C14(tier string) int {
 	bound := 2
 	var jobs []concJob
 	for _, cs := range []CScenario{
-		{"A||B double vote", [][]CReq{{att1(0, 1, 2)}, {att1(0, 1, 2)}}},
-		{"A||B double vote other source", [][]CReq{{att1(0, 0, 2)}, {att1(0, 1, 2)}}},
-		{"A||B surround", [][]CReq{{att1(0, 1, 2)}, {att1(0, 0, 3)}}},
-		{"A||B double proposal", [][]CReq{{prop1(0, 5)}, {prop1(0, 5)}}},
-		{"A||B||A double vote", [][]CReq{{att1(0, 1, 2)}, {att1(0, 1, 2)}, {att1(0, 1, 2)}}},
-		{"A;B||B;A surround", [][]CReq{{att1(0, 1, 2), att1(0, 0, 3)}, {att1(0, 0, 3), att1(0, 1, 2)}}},
+		{Name: "A||B double vote", Threads: [][]CReq{{att1(0, 1, 2)}, {att1(0, 1, 2)}}},
+		{Name: "A||B double vote other source", Threads: [][]CReq{{att1(0, 0, 2)}, {att1(0, 1, 2)}}},
+		{Name: "A||B surround", Threads: [][]CReq{{att1(0, 1, 2)}, {att1(0, 0, 3)}}},
+		{Name: "A||B double proposal", Threads: [][]CReq{{prop1(0, 5)}, {prop1(0, 5)}}},
+		{Name: "A||B||A double vote", Threads: [][]CReq{{att1(0, 1, 2)}, {att1(0, 1, 2)}, {att1(0, 1, 2)}}},
+		{Name: "A;B||B;A surround", Threads: [][]CReq{{att1(0, 1, 2), att1(0, 0, 3)}, {att1(0, 0, 3), att1(0, 1, 2)}}},
 	} {
 		jobs = append(jobs, concJob{cs: cs, linear: true, bound: bound})
 	}
